@@ -93,6 +93,12 @@ def parse_fn_block(lines, i, end_marker='end'):
                 o = parse_opts(words[2:])
                 cur = []
                 blk.loops[n] = (o.get('iter'), cur)
+            elif words[0] in ('loop-start', 'loop-end'):
+                cur = []
+                blk.anchors.append((words[0], '', int(words[1]), cur))
+            elif words[0] == 'before-result':
+                cur = []
+                blk.anchors.append(('before-result', '', 1, cur))
             elif words[0] in ('before', 'after', 'after-block'):
                 m = re.match(r'(before|after-block|after)\s+"(.*)"\s*(#(\d+))?$', body)
                 if not m:
@@ -558,13 +564,45 @@ def annotate_fn(sf, item, blk, counts, meta, mode, qual_name, extra_ensures=None
                 raise Drift('%s: loop %d is not a for loop' % (qual_name, n))
             inserts.append((lp['in_end'], '/*@I%d@*/' % n))
             marker_text['/*@I%d@*/' % n] = ' %s:' % iter_name
-    for off, ins in sorted(inserts, key=lambda x: -x[0]):
+    for where, anchor, occ, lines in blk.anchors:
+        if where in ('loop-start', 'loop-end'):
+            if occ > len(loops):
+                raise Drift('%s: %s %d but the body has %d loops' % (qual_name, where, occ, len(loops)))
+            lp = loops[occ - 1]
+            btoks = lex(body)
+            k0 = [k for k, t in enumerate(btoks) if t.start == lp['brace'] and t.kind == 'punct']
+            cl = match_close(btoks, k0[0])
+            key = '/*@%s%d@*/' % ('LS' if where == 'loop-start' else 'LE', occ)
+            txt = '\n' + '\n'.join(lines) + '\n'
+            if key in marker_text:
+                marker_text[key] += txt
+            else:
+                marker_text[key] = txt
+                inserts.append((lp['brace'] + 1, key) if where == 'loop-start' else (btoks[cl].start, key))
+            counts.bump('R3')
+    # at equal offsets the loop-start marker must come after the invariant marker
+    order = {'L': 0, 'I': 0}
+    for off, ins in sorted(inserts, key=lambda x: (-x[0], 0 if x[1].startswith('/*@LS') else 1)):
         body = body[:off] + ins + body[off:]
     if blk.loops:
         counts.bump('R3', len(blk.loops))
 
     # anchors
     for where, anchor, occ, lines in blk.anchors:
+        if where in ('loop-start', 'loop-end'):
+            continue
+        if where == 'before-result':
+            # before the last non-empty line of the fn body (its result expression)
+            blines = body.split('\n')
+            li = len(blines) - 1
+            while li >= 0 and blines[li].strip() in ('', '}'):
+                li -= 1
+            if li < 0:
+                raise Drift('%s: no result line' % qual_name)
+            blines[li:li] = list(lines)
+            body = '\n'.join(blines)
+            counts.bump('R3')
+            continue
         blines, li = line_anchor(body, anchor, occ)
         ins = list(lines)
         if where == 'after-block':
